@@ -272,7 +272,7 @@ def check_case(args):
             if c.expect_compile_error:
                 continue
             if built is None or not built.ok:
-                res['unexplored'].append(f'{prof}: build failed: ' + (built.log[-300:] if built else ''))
+                res['violations'].append({'what': 'valid program does not compile', 'variant': prof, 'log': (built.log[-600:] if built else '')})
                 continue
             data, env, patches = c.make_inputs() if not getattr(c, 'needs_built', False) else c.make_inputs(built)
             prog = Program(built.bytecode, data, f'{c.name}/{prof}')
